@@ -170,7 +170,8 @@ func TestVerif_C04_keepalive(t *testing.T) {
 	r := s.Rand()
 	n := verifh.N(3000, 30000)
 	reached := map[string]int{}
-	for i := 0; i < n; i++ {
+	hangs := 0
+	for i := 0; i < n && hangs < 3; i++ {
 		m := c04GenE2E(r)
 		mode := "hold"
 		if r.Intn(5) == 0 {
@@ -200,6 +201,9 @@ func TestVerif_C04_keepalive(t *testing.T) {
 		r1, r2, rd := c04RunSeq(ref, m.head, func() int { nwR.mu.Lock(); defer nwR.mu.Unlock(); return nwR.dials }, nwR.closeAll)
 		ref.CloseIdleConnections()
 		nwR.closeAll()
+		if f1 == "hang" || f2 == "hang" || r1 == "hang" || r2 == "hang" {
+			hangs++ // each costs the 10 s watchdog; three are enough to report
+		}
 		want2 := "ok code=200 body=" + verifh.Hex(c03Second)
 		agree := f1 == r1 && f2 == r2 && fd == rd
 		ok := agree && f2 == want2
